@@ -321,7 +321,7 @@ def run_kani(unit_id, unit_dir, spec, tier, timeout=None):
     env = _env()
     harnesses = spec["harnesses"]
     to = timeout or (300 if tier == "quick" else 1200)
-    cmd = ["cargo", "kani", "-Z", "function-contracts", "-Z", "stubbing", "--output-format", "regular", "-j", "8"]
+    cmd = ["cargo", "kani", "-Z", "function-contracts", "-Z", "stubbing", "--output-format", "terse", "-j", "8"]
     for h in harnesses: cmd += ["--harness", h]
     if spec.get("exact", True): cmd += ["--exact"]
     t0 = time.time()
@@ -333,23 +333,36 @@ def run_kani(unit_id, unit_dir, spec, tier, timeout=None):
     out = p.stdout + "\n" + p.stderr
     if p.returncode == 124:
         raise Undecided(unit_id, "kani timeout after %ds" % to)
-    # parse per-harness results
+    # parse per-harness results (output of parallel runs is prefixed "Thread k:")
     res = {}
-    cur = None
+    cur_by_thread = {}
+    th = None
     failed = []
     checks_total = 0
-    for ln in out.splitlines():
+    for raw in out.splitlines():
+        ln = raw
+        m = re.match(r"^Thread (\d+): ?(.*)$", ln)
+        if m:
+            th = m.group(1); ln = m.group(2)
+        cur = cur_by_thread.get(th)
         m = re.match(r"^Checking harness (\S+?)\.\.\.", ln)
-        if m: cur = m.group(1); res.setdefault(cur, {"status": None, "failed_checks": [], "checks": 0}); continue
+        if m:
+            cur_by_thread[th] = m.group(1); res.setdefault(m.group(1), {"status": None, "failed_checks": [], "checks": 0, "covers": None}); continue
+        if cur is None: continue
         m = re.match(r"^VERIFICATION:- (\w+)", ln)
-        if m and cur: res[cur]["status"] = m.group(1); continue
+        if m: res[cur]["status"] = m.group(1); continue
         m = re.match(r"^\s*\*\* (\d+) of (\d+) failed", ln)
-        if m and cur: res[cur]["checks"] = int(m.group(2)); continue
+        if m: res[cur]["checks"] = int(m.group(2)); continue
+        m = re.match(r"^\s*\*\* (\d+) of (\d+) cover properties satisfied", ln)
+        if m: res[cur]["covers"] = (int(m.group(1)), int(m.group(2))); continue
         m = re.match(r"^Failed Checks: (.*)$", ln)
-        if m and cur: res[cur]["failed_checks"].append(m.group(1)); continue
+        if m: res[cur]["failed_checks"].append(m.group(1)); continue
     if not res or any(h.split("::")[-1] not in [k.split("::")[-1] for k in res] for h in harnesses):
         errs = [l for l in out.splitlines() if l.startswith("error")]
         raise Undecided(unit_id, "kani did not run all harnesses (compile error?): " + " | ".join(errs[:5]) + out[-500:])
+    for h, r in res.items():
+        if r["covers"] and r["covers"][0] < r["covers"][1]:
+            raise Undecided(unit_id, "vacuity guard: kani cover property unsatisfied in %s" % h)
     verified = 0
     for h, r in res.items():
         checks_total += r["checks"]
@@ -362,8 +375,37 @@ def run_kani(unit_id, unit_dir, spec, tier, timeout=None):
             failed.append({"obligation": "%s: %s" % (h, "; ".join(fc)[:300]), "function": h, "kind": "kani check failed", "detail": "; ".join(fc)})
         else:
             raise Undecided(unit_id, "kani harness %s has no verdict" % h)
+    if failed:
+        _kani_playback(cdir, spec, failed, env, exp.text)
     stubs = re.findall(r"- Stub: (\S+)", out)
     return {"unit": unit_id, "backend": "kani", "crate": spec["crate"], "file": os.path.join(cdir, "src", "lib.rs"),
             "checker_cmd": " ".join(cmd) + "  (cwd %s)" % cdir, "obligations": len(res), "discharged": verified, "cbmc_checks": checks_total,
             "harnesses": sorted(res.keys()), "failed": failed, "items": _items_meta(exp), "wall_s": round(wall, 2), "solver_time_s": round(wall, 2),
             "trusted": exp.trusted + ["kani stub: " + s for s in stubs], "drops": exp.drops}
+
+
+def _kani_playback(cdir, spec, failed, env, lib_text):
+    """For each failed harness: let Kani write its counter-example as a unit test (concrete playback), run it natively on the
+    extracted real code, and attach values + outcome to the failure (this is the replay of the verifier's counter-example)."""
+    lib = os.path.join(cdir, "src", "lib.rs")
+    for fl in failed:
+        h = fl["function"]
+        try:
+            subprocess.run(["timeout", "300", "cargo", "kani", "-Z", "function-contracts", "-Z", "stubbing", "-Z", "concrete-playback",
+                            "--concrete-playback=inplace", "--harness", h, "--exact"], cwd=cdir, capture_output=True, text=True, env=env)
+            txt = open(lib, encoding="utf-8").read()
+            tests = re.findall(r"fn (kani_concrete_playback_\w+)\(\) \{\s*let concrete_vals: Vec<Vec<u8>> = vec!\[(.*?)\];", txt, re.S)
+            p = subprocess.run(["timeout", "300", "cargo", "kani", "playback", "-Z", "concrete-playback"], cwd=cdir, capture_output=True, text=True, env=env)
+            out = p.stdout + p.stderr
+            failing = re.findall(r"^    (?:\w+::)*(kani_concrete_playback_\w+)$", out, re.M)
+            for name, vals in tests:
+                if name in failing:
+                    comments = re.findall(r"//\s*(.+)", vals)
+                    fl["input"] = "kani counter-example (values of kani::any() in call order): " + ", ".join(c.strip() for c in comments)
+                    m = re.search(r"panicked at [^\n]*\n([^\n]*)", out)
+                    fl["detail"] = "concrete playback on the natively compiled extracted code FAILS: " + (m.group(1).strip() if m else "test failed") + " | " + fl.get("detail", "")
+                    break
+        except Exception as e:
+            fl["detail"] = fl.get("detail", "") + " (playback failed: %s)" % e
+        finally:
+            open(lib, "w", encoding="utf-8").write(lib_text)
